@@ -281,7 +281,8 @@ Section Monitors2.
         (* the origin's exact body is forwarded *)
         match scripted_reply script i (existsb (fun c => let '(j, cq, _, _, _) := c in (j =? i) && is_conditional cq) (fg_calls o)) with
         | RResp orig =>
-            if (p_body r =? (if no_body_status (p_status orig) then -1 else i)) && Bool.eqb (p_body_ok r) (p_body_ok orig)
+            if negb (p_body_ok orig) then (if p_body_ok r then VBad 8 else VOk)   (* a broken stream stays broken *)
+            else if (p_body r =? (if no_body_status (p_status orig) then -1 else i)) && p_body_ok r
             then VOk else VBad 8
         | RErr => VBad 7
         end
@@ -320,7 +321,12 @@ Section Monitors2.
     let writes := set_entries (x_events o ++ x_bg_events o) in
     if negb (forallb write_allowed writes) then VBad 1
     else match resp_of o with
-         | Some r => if (p_status r =? 304) && is_get (q_method q) && negb (client_conditional q) then VBad 2
+         | Some r => if (p_status r =? 304) && is_get (q_method q) && negb (client_conditional q)
+                        && negb (match how_ with
+                                 | FromOrigin i =>   (* the origin's own 304 to an unconditional request, passed on *)
+                                     existsb (fun cl => let '(j, cq, _, _, _) := cl in (j =? i) && negb (is_conditional cq)) (fg_calls o)
+                                 | _ => false end)
+                     then VBad 2
                      else (match writes with [] => VNa | _ => VOk end)
          | None => match writes with [] => VNa | _ => VOk end
          end.
